@@ -8,14 +8,22 @@ Open Scope Q_scope.
 
 (* ---------------------------------------------------------------- the recorded acquisition function
    af(x) = sum_i (a_i y_i^2 + b_i y_i) + cc * y_first * y_last   with  y = floor(snap * x) / snap  (y = x when snap = 0);
-   integer coefficients, power-of-two snap: exact in double arithmetic on the generated inputs *)
-Record afspec := mkaf { af_a : list Q; af_b : list Q; af_cc : Q; af_snap : Q }.
+   integer coefficients, power-of-two snap: exact in double arithmetic on the generated inputs.
+   The function is undefined (the harness returns NaN) on the union of the half-spaces af_und: (k, t, true) means x_k > t,
+   (k, t, false) means x_k < t (raw coordinates: a comparison of doubles is exact) *)
+Record afspec := mkaf { af_a : list Q; af_b : list Q; af_cc : Q; af_snap : Q; af_und : list (nat * Q * bool) }.
 Definition snap1 (s x : Q) : Q := if Qeq_bool s 0 then x else Qred (inject_Z (Qfloor (s * x)) / s).
 Fixpoint quad_sum (a b y : list Q) : Q :=
   match a, b, y with ai :: a', bi :: b', yi :: y' => ai * yi * yi + bi * yi + quad_sum a' b' y' | _, _, _ => 0 end.
-Definition af_eval (f : afspec) (x : point) : Q :=
+Definition af_value (f : afspec) (x : point) : Q :=
   let y := map (snap1 (af_snap f)) x in
   Qred (quad_sum (af_a f) (af_b f) y + af_cc f * hd 0 y * last y 0).
+Definition undefined_at (f : afspec) (x : point) : bool :=
+  existsb (fun u : nat * Q * bool =>
+             let '(k, t, above) := u in
+             if above then Qltb t (nth k x t) else Qltb (nth k x t) t) (af_und f).
+Definition af_eval (f : afspec) (x : point) : option Q :=
+  if undefined_at f x then None else Some (af_value f x).
 
 Record domspec := mkdom { d_lb : point; d_ub : point; d_fixed : list (nat * Q); d_cons : list (point * Q) }.
 Definition in_dom_of (tol : Q) (d : domspec) : point -> bool := in_dom_b tol (d_lb d) (d_ub d) (d_fixed d) (d_cons d).
@@ -33,15 +41,17 @@ Definition batch_close (tol : Q) := list_eqb (list_eqb (close tol)).
 Definition optq_eqb (a b : option Q) : bool :=
   match a, b with None, None => true | Some x, Some y => Qeq_bool x y | _, _ => false end.
 
-(* decidable specification of "returns exactly the evaluated point of highest value, the first one attaining it" *)
-Definition best_spec_b (af : point -> Q) (flat : batch) (p : point) (v : Q) : bool :=
-  Qeq_bool v (af p) && forallb (fun q => Qle_bool (af q) v) flat &&
-  match find (fun q => Qeq_bool (af q) v) flat with Some q => point_eqb q p | None => false end.
+(* decidable specification of "returns exactly the evaluated point of highest value, the first one attaining it"; a point
+   where the function is undefined has no value: it is never the answer and never stands in the way of one *)
+Definition le_opt (a : option Q) (v : Q) : bool := match a with Some w => Qle_bool w v | None => true end.
+Definition best_spec_b (af : point -> option Q) (flat : batch) (p : point) (v : Q) : bool :=
+  optq_eqb (af p) (Some v) && forallb (fun q => le_opt (af q) v) flat &&
+  match find (fun q => optq_eqb (af q) (Some v)) flat with Some q => point_eqb q p | None => false end.
 
 (* what the harness observed *)
 Record obs := mkobs {
   ob_evals : list batch; ob_rins : list batch; ob_routs : list batch;
-  ob_best : point; ob_bestv : Q; ob_start : batch; ob_end : batch; ob_vals : list Q
+  ob_best : point; ob_bestv : option Q; ob_start : batch; ob_end : batch; ob_vals : list (option Q)   (* None: NaN *)
 }.
 
 Definition tol_cons : Q := 1 # 1000000000.      (* constraints on the running code: 1e-9 (DESIGN 7.0) *)
@@ -61,19 +71,23 @@ Definition check_output (d : domspec) (f : afspec) (o : output) (ob : obs) : boo
   list_eqb batch_eqb (evals (o_state o)) (ob_evals ob) &&
   list_eqb (batch_close (rin_tol d)) (rins (o_state o)) (ob_rins ob) &&
   match best (o_state o) with
-  | Some (p, v) => point_eqb p (ob_best ob) && Qeq_bool v (ob_bestv ob)
+  | Some (p, v) => point_eqb p (ob_best ob) && optq_eqb (Some v) (ob_bestv ob)
   | None => false
   end &&
   batch_eqb (o_start o) (ob_start ob) && batch_eqb (o_end o) (ob_end ob) &&
-  list_eqb Qeq_bool (o_vals o) (ob_vals ob) &&
+  list_eqb optq_eqb (o_vals o) (ob_vals ob) &&
   (* specification on the implementation's own output *)
   forallb (forallb (in_dom_of tol_cons d)) (ob_evals ob) &&
-  best_spec_b af (concat (ob_evals ob)) (ob_best ob) (ob_bestv ob) &&
-  list_eqb Qeq_bool (map af (ob_end ob)) (ob_vals ob) &&
-  match ob_routs ob with     (* never lower than the value at any domain-restricted starting point *)
-  | r0 :: _ => forallb (fun p => Qle_bool (af p) (ob_bestv ob)) r0
-  | [] => false
-  end.
+  match ob_bestv ob with       (* the reported value is a value: never NaN *)
+  | Some bv =>
+      best_spec_b af (concat (ob_evals ob)) (ob_best ob) bv &&
+      match ob_routs ob with     (* never lower than the value at any domain-restricted starting point that has one *)
+      | r0 :: _ => forallb (fun p => le_opt (af p) bv) r0
+      | [] => false
+      end
+  | None => false
+  end &&
+  list_eqb optq_eqb (map af (ob_end ob)) (ob_vals ob).
 
 (* one coordinate of one member over the Adam iterations: gradients, certified square roots, observed updates *)
 Record track := mktr { tr_g : list Q; tr_s : list Q; tr_u : list Q }.
@@ -101,9 +115,10 @@ Inductive ms_obs :=
 
 Inductive case :=
 | CDE (d : domspec) (f : afspec) (P : de_par) (maxiter : nat) (selected : option batch) (pool : batch)
-      (ds : list draws) (ob : option obs)                       (* None: the implementation raised ValueError *)
+      (ds : list draws) (routs : list batch) (ob : option obs)  (* None: the implementation raised ValueError *)
 | CAdam (d : domspec) (f : afspec) (n maxiter : nat) (selected : option batch) (pool : batch)
-        (ups : list batch) (ob : obs) (b1 b2 lr eps : Q) (tracks : list track)
+        (ups : list batch) (routs : list batch) (ob : option obs)    (* None: ValueError (a batch without a single defined value) *)
+        (b1 b2 lr eps : Q) (tracks : list track)
 | CMs (d : domspec) (nm : nat) (selected : option batch) (pool : batch) (table : list outcome) (ob : ms_obs).
 
 Definition err_eqb (a b : err) : bool :=
@@ -115,17 +130,17 @@ Definition err_eqb (a b : err) : bool :=
 
 Definition check (c : case) : bool :=
   match c with
-  | CDE d f P maxiter selected pool ds ob =>
-      let routs := match ob with Some o => ob_routs o | None => [] end in
+  | CDE d f P maxiter selected pool ds routs ob =>
       match de_optimize (af_eval f) (restrict_of d routs) (cyc pool) P maxiter selected ds, ob with
       | Ok o, Some ob => check_output d f o ob
       | Err ValueError, None => true
       | _, _ => false
       end
-  | CAdam d f n maxiter selected pool ups ob b1 b2 lr eps tracks =>
-      match adam_optimize (af_eval f) (restrict_of d (ob_routs ob)) (cyc pool) n maxiter selected ups with
-      | Ok o => check_output d f o ob && forallb (check_track b1 b2 lr eps) tracks
-      | Err _ => false
+  | CAdam d f n maxiter selected pool ups routs ob b1 b2 lr eps tracks =>
+      match adam_optimize (af_eval f) (restrict_of d routs) (cyc pool) n maxiter selected ups, ob with
+      | Ok o, Some ob => check_output d f o ob && forallb (check_track b1 b2 lr eps) tracks
+      | Err ValueError, None => true
+      | _, _ => false
       end
   | CMs d nm selected pool table ob =>
       (* a run beyond the scripted table hands its start back without success *)
